@@ -144,7 +144,17 @@ func genbankDefinitionParser(gb *GenBank, depth int) pars.Parser {
 func genbankAccessionParser(gb *GenBank, depth int) pars.Parser {
 	parser := genbankGenericFieldParser("ACCESSION", depth)
 	return parser.Map(func(result *pars.Result) error {
-		gb.Fields.Accession = string(result.Token)
+		accession := string(result.Token)
+		// A sliced record carries its window as "ACCESSION <acc> REGION: a..b".
+		if i := strings.LastIndex(accession, " REGION: "); i >= 0 {
+			if loc, err := gts.AsLocation(accession[i+len(" REGION: "):]); err == nil {
+				if r, ok := loc.(gts.Ranged); ok && loc.String() == accession[i+len(" REGION: "):] {
+					gb.Fields.Region = gts.Segment{r.Start, r.End}
+					accession = accession[:i]
+				}
+			}
+		}
+		gb.Fields.Accession = accession
 		return nil
 	})
 }
